@@ -153,6 +153,8 @@ D0 = 'substrate.data[old(substrate.pos)]'
 
 
 def region(name, test, mode, params, **kw):
+    if test.startswith('state is st') and '@loop' not in test and '#else' not in test:
+        test += ' @loop'        # the states of the machine: `if state is ...:` inside the `while state is not stStop` loop
     return Contract(id='ber.decoder::SingleItemDecoder.__call__@%s[%s]' % (name, mode), file=F,
                     qual='SingleItemDecoder.__call__', region=test, is_generator=True,
                     params=dict(dict(self=PObj('SingleItemDecoder', supportIndefLength=PBool()), substrate=PStream(mode),
